@@ -1167,7 +1167,10 @@ class NestedPipeFunc(PipeFunc):
 
     @functools.cached_property
     def func(self) -> Callable[..., tuple[Any, ...]]:  # type: ignore[override]
-        func = self.pipeline.func(self.pipeline.unique_leaf_node.output_name)
+        # Ask for a single name of the leaf: `full_output` then lists every output
+        # of a multi-output function under its own name (not under the tuple).
+        leaf_name = at_least_tuple(self.pipeline.unique_leaf_node.output_name)[0]
+        func = self.pipeline.func(leaf_name)
         return _NestedFuncWrapper(func.call_full_output, self.output_name)
 
     @functools.cached_property
